@@ -35,6 +35,15 @@ func main() {
 			b, _ := json.MarshalIndent(map[string]interface{}{"lines": em.Lines, "cases": em.Cases, "dist": em.Stats}, "", " ")
 			os.WriteFile(*stats, b, 0o644)
 		}
+	case "extract":
+		fs := flag.NewFlagSet("extract", flag.ExitOnError)
+		repo := fs.String("repo", "/repo", "repository root")
+		out := fs.String("out", "", "output directory for generated Lean files")
+		fs.Parse(os.Args[2:])
+		if err := extractFacts(*repo, *out); err != nil {
+			fmt.Fprintln(os.Stderr, "extract:", err)
+			os.Exit(1)
+		}
 	default:
 		fmt.Fprintln(os.Stderr, "unknown command", os.Args[1])
 		os.Exit(2)
